@@ -5,6 +5,7 @@ CONSTANTS
   HasTimeout = {"j1", "j2", "j3"}
   IgnoresTerm = {}
   PopenMayFail = {"j1", "j2", "j3"}
+  PreFix = FALSE
   CoarseCancel = TRUE
   Modes = {"none", "nowait", "wait"}
 VIEW TView
